@@ -199,6 +199,8 @@ def check_grant(ctx, tag, esz, grantable):
         lg = q.user.get("log") or []
         grants = [e for e in lg if e[0] == 0x110]
         if q.status == "ret":
+            ctx.require(q, z3.Or(q.ret == 0, ctx.in_region(q.ret, base, SIZE)),
+                        "the tainted pointer handed back is null or inside the sandbox (a refused grant falls back to copying; the raw buffer address is never wrapped)")
             if grants:
                 ctx.require(q, z3.Or(num == 0, not_straddling(base, src, NB)),
                             "access is granted only to a non-null range of num whole elements that does not straddle the sandbox boundary or wrap")
